@@ -294,17 +294,31 @@ def run_env(ctx, name, cfg):
                              for x in jax.tree_util.tree_leaves(args)]
             ids_before = [id(x) for x in jax.tree_util.tree_leaves(args)]
             before, gbefore = mon.snapshot(), _global_snapshot(mods)
-            mon.on = True
+            inner_snap = {}
             try:
                 if mode == "trace":
-                    jax.make_jaxpr(f)(*args)
+                    # under tracing the function receives FRESH pytree containers holding tracers: register those (the objects the
+                    # real code sees as its arguments) as pre-existing before the real function runs, and snapshot them around the call
+                    def traced(*targs, f=f, mon=mon):
+                        for x in targs:
+                            mon.reach(x)
+                        b = mon.snapshot()
+                        mon.on = True
+                        try:
+                            out = f(*targs)
+                        finally:
+                            mon.on = False
+                        inner_snap["changed"] = mon.diff(b, mon.snapshot())
+                        return out
+                    jax.make_jaxpr(traced)(*args)
                 else:
+                    mon.on = True
                     f(*args)
             finally:
                 mon.on = False
                 mon.unpatch()
             after, gafter = mon.snapshot(), _global_snapshot(mods)
-            changed = mon.diff(before, after)
+            changed = mon.diff(before, {k: v for k, v in after.items() if k in before}) + inner_snap.get("changed", [])
             gchanged = [f"{k[0]}.{k[1]}" for k in gbefore if gbefore[k] != gafter.get(k)]
             leaves_after = jax.tree_util.tree_leaves(args)
             same_vals = len(leaves_after) == len(leaves_before) and all(
